@@ -74,6 +74,11 @@ checks.update({
    technique="exhaustive enumeration of type-boundary values x key lengths x entry sizes around the table size x client paths x stages (direct, fail-over to the backup copy, migration after a join) on real members; typed read-back comparison plus white-box absence check for rejected writes",
    text="61 boundary values over every supported type (integer widths at min/-1/0/1/max, floats incl. -0/denormal/max/Inf/NaN, bool, strings and byte slices incl. empty, NUL, CR LF, RESP look-alikes, non-UTF8, 1 KiB, time incl. zone and year 9999, duration min/max, BinaryMarshaler) x paths {EO, EN, CC} x stages {direct read, read after the owner crashed (R=2: the backup copy serves), read after a join and balancing}; key lengths {0,1,254,255,256,257,300}; entries of tableSize-3..+2 bytes in 512-byte tables. Accepted writes read back equal into the same type at every stage and two neighbour keys of the same partition stay intact; rejected writes return exactly ErrKeyTooLarge / ErrEntryTooLarge and leave no copy (and no undecodable entry) on any member; a call that never returns is named by the watchdog.",
    note="quick pairs every value with the plain key plus a rotating special key, thorough crosses them fully; values above 1 KiB (e.g. > 64 KiB) are not in the alphabet"),
+
+ "C18": dict(cat="model_checking", engine="faultgrid", ref="6 C18",
+   technique="exhaustive enumeration of (way a value was obtained) x client path x every bounded sequence of memory-disturbing follow-up events on real members; byte-for-byte comparison of the held value with the copy taken at return time, and of the store with what it should hold after the caller scribbled over its value",
+   text="Handles {Get.Byte, Get.String, Get.Scan into *[]byte / *string, GetPut's old value, iterator key} x paths {EO, EN, CC} x all sequences of length <= 2 (quick) / 3 (thorough) over {overwrite same size, overwrite larger, delete, churn that fills/compacts/recycles/reuses the partition's tables, compaction, caller overwrites the returned bytes, join + rebalancing} x table sizes {128 B, 64 KiB}: the held value never changes, a caller's writes never reach the store, and the buffer passed to Put may be overwritten as soon as Put returns.",
+   note="sequential enumeration; the reader/writer interleaving variant of the design (E3) is not built - aliasing is a memory-lifetime matter that the sequential sequences with table recycling expose"),
 })
 not_applicable = {}
 all_ids = ["C%02d" % i for i in range(1, 21)]
@@ -94,7 +99,7 @@ m = {
    {"name": "kvmc", "path": "harness/kvmc", "serves_properties": ["C11", "C12", "C20"], "kind_free_text": "explicit-state BFS over the real storage engine"},
    {"name": "schedmc", "path": "harness/schedmc", "serves_properties": ["C01", "C07", "C08"], "kind_free_text": "stateless schedule exploration (preemption bounded DFS) of real members under a cooperative scheduler"},
    {"name": "inputmc", "path": "harness/checks/c16.go", "serves_properties": ["C16", "C17"], "kind_free_text": "exhaustive enumeration of request argument vectors / byte frames / typed boundary values through the real handlers and clients, in crash-isolated workers with a watchdog"},
-   {"name": "faultgrid", "path": "harness/checks", "serves_properties": ["C05", "C06", "C15"], "kind_free_text": "exhaustive enumeration of finite configuration / fault / layout grids, one fresh real cluster per case"},
+   {"name": "faultgrid", "path": "harness/checks", "serves_properties": ["C05", "C06", "C15", "C18"], "kind_free_text": "exhaustive enumeration of finite configuration / fault / layout grids, one fresh real cluster per case"},
    {"name": "clustermc", "path": "harness/clustermc", "serves_properties": ["C04", "C09", "C10", "C13", "C19"], "kind_free_text": "explicit-state BFS over event sequences on a simulated cluster of real members (path replay)"},
  ],
  "checks": [],
